@@ -172,7 +172,7 @@ def plan():
     CFG = {0: "phi 8, max 10 s, initial 5 s", 1: "phi 0.5, max 1 s, initial 1 s", 2: "phi 16, max 100 s, initial 1000 s", 3: "phi 2, max 1000 s, initial 10 s", 4: "phi 4, max 3 s, initial 7 s"}
     def fdh(name, body, covers, tiers, desc, bounds, funcs=F_FD, timeout=900, mem=6):
         return H(name, body, mod="failure_detector", macro="h_fd", unwind=6, tiers=tiers, covers=covers, rules=R_COMMON, funcs=funcs, bounds=bounds, desc=desc, timeout=timeout, mem=mem,
-                 cuts=["clock = vstd::time::NOW (solver variable)", "durations on a whole-second grid", "configuration enumerated (symbolic x symbolic double division stalls bit-blasting)"])
+                 cuts=["clock = vstd::time::NOW (solver variable)", "durations on a whole-second grid (c10_half_*: whole seconds + a concrete half second)", "configuration enumerated (symbolic x symbolic double division stalls bit-blasting)"])
     def hist(cfg, w, n, tiers):
         cov = ["alive verdict reachable"] + (["an over-long interval was dropped, others kept"] if n >= 3 else []) + (["ring wrapped around"] if n - 1 > w else [])
         return fdh(f"c10_hist_{cfg}_{w}_{n}", f"c10_history({cfg}, {w}, {n})", cov, tiers, "exact short heartbeat history through the real report path, then silence",
